@@ -21,6 +21,7 @@ ENTRIES = [
     ("C06-worker-ends-on-closed-conn-channel", "C06", ["C06-970f0dd.diff"], "C06:"),
     ("C06-lazy-counter", "C06", ["C06-a42c097.diff"], "C06:graceful-stop"),
     ("C19-openssl-panic", "C19", ["C19-2c578aa.diff"], "C19:tls-connector-panics:openssl"),
+    ("C19-native-tls-panic", "C19", ["C19-640cab0.diff"], "C19:tls-connector-panics:native_tls"),
 ]
 
 def sh(cmd, cwd, timeout=3600):
